@@ -1639,6 +1639,18 @@ func genRoundC(r *common.Run, rnd *common.Rand, pol policies) {
 	m := func(b ...byte) step { return step{kind: "m", resp: b} }
 	uh, ph := hex.EncodeToString([]byte("user")), hex.EncodeToString([]byte("secret"))
 	sdepth := r.Pick(2, 3)
+	// ---- past witnesses (with the policies of the code under test) ----
+	d := step{kind: "d"}
+	for _, peer := range [][]string{{"B"}, {"Rv01"}, {"AMX/v01"}, {"AM1/bad"}} {
+		// the loop was left on a done context and the success tail ran
+		_ = runServer(r, srvCase{mechs: []string{"M1", "M2"}, steps: []step{d}, perm: "any", peer: peer, ctxOn: true, cancel: 0, looks: pol.looks}, "srv-ctx-corpus")
+	}
+	_ = runServer(r, srvCase{mechs: []string{"PLAIN"}, perm: "none", peer: []string{"APLAIN/" + plainPayloads()[0]}, ctxOn: true, cancel: 0, looks: pol.looks}, "srv-ctx-corpus")
+	_ = runServer(r, srvCase{mechs: []string{"M1"}, steps: []step{m(1), m(2), d}, perm: "any", peer: []string{"AM1/v01", "Rv02"}, ctxOn: true, cancel: 1, looks: pol.looks}, "srv-ctx-corpus")
+	// a recovered panic whose value is not an error read as "completed without error"
+	_ = runServer(r, srvCase{mechs: []string{"M1", "M2"}, steps: []step{{kind: "ps"}}, perm: "any", peer: []string{"AM1/-"}, pol: pol.srvPanic}, "srv-panic-corpus")
+	_ = runServer(r, srvCase{mechs: []string{"PLAIN"}, perm: "panic-s", peer: []string{"APLAIN/" + plainPayloads()[0]}, pol: pol.srvPanic}, "srv-panic-corpus")
+	_ = runServer(r, srvCase{mechs: []string{"PLAIN"}, perm: "panic-v", peer: []string{"APLAIN/" + plainPayloads()[0]}, pol: pol.srvPanic}, "srv-panic-corpus")
 	// ---- receiving side: the k-th Step panics ----
 	for _, pk := range []string{"pe", "ps", "pv"} {
 		for si, sc := range [][]step{{{kind: pk}}, {m(0xB1), {kind: pk}}, {m(), m(0xB2), {kind: pk}}} {
